@@ -170,8 +170,9 @@ theorem repr_truncated_reports_length (cls : Cls) (l : Bits) (pos : Nat) (h : l.
     `…')  # length=N)`, so it is not an expression that evaluates back to the Array.  (With at most
     `4 * MAX_CHARS` trailing bits the embedded repr is the faithful one of `repr_roundtrip`.) -/
 theorem arrayRepr_long_trailing_commented (k : Kind) (n : Nat) (data : Bits)
-    (h : data.length % n > 4 * Gen.maxChars) :
+    (h : array_long_trailing n data = true) :
     ∃ pre, arrayRepr k n data = pre ++ lenComment ++ natDec (data.length % n) ++ [')'] := by
+  have h : data.length % n > 4 * Gen.maxChars := by simpa [array_long_trailing] using h
   have ht : data.length % n ≠ 0 := by omega
   have hle : data.length % n ≤ data.length := Nat.mod_le _ _
   have hlen : (data.drop (data.length - data.length % n)).length = data.length % n := by
@@ -185,6 +186,40 @@ theorem arrayRepr_long_trailing_commented (k : Kind) (n : Nat) (data : Bits)
       (['['] ++ joinSep commaSp (List.map (itemRepr k) (items n data)) ++ [']']) ++
       (", trailing_bits=".toList ++ body), ?_⟩
   simp only [List.append_assoc]
+
+/-- Outside the region the trailing bits are embedded by their faithful `repr` (the one of `repr_roundtrip`):
+    `…, trailing_bits=BitArray('<str of the bits>'))`. -/
+theorem arrayRepr_trailing_partial (k : Kind) (n : Nat) (data : Bits)
+    (h : array_long_trailing n data = false) (ht : data.length % n ≠ 0) :
+    ∃ pre, arrayRepr k n data = pre ++ reprForm .bitArray (data.drop (data.length - data.length % n)) 0 ++ [')'] ∧
+      parseRepr (reprForm .bitArray (data.drop (data.length - data.length % n)) 0)
+        = .ok (.bitArray, data.drop (data.length - data.length % n), 0) := by
+  have h : ¬ data.length % n > 4 * Gen.maxChars := by simpa [array_long_trailing] using h
+  have hle : data.length % n ≤ data.length := Nat.mod_le _ _
+  have hlen : (data.drop (data.length - data.length % n)).length = data.length % n := by
+    rw [List.length_drop]; omega
+  refine ⟨"Array('".toList ++ (k.name ++ if k = Kind.bool then [] else natDec n) ++ "', ".toList ++
+      (['['] ++ joinSep commaSp (List.map (itemRepr k) (items n data)) ++ [']']) ++ ", trailing_bits=".toList, ?_, ?_⟩
+  · unfold arrayRepr
+    simp only [ht, if_false, reprFormAlg_msb0, List.append_assoc]
+  · exact repr_roundtrip .bitArray _ 0 (by rw [hlen]; omega) (Nat.zero_le _) (fun _ => rfl)
+
+/-! ### known finding `file-repr-after-mutation` -/
+
+/-- An object still holding the file's content prints a text that evaluates to its value … -/
+theorem file_repr_partial (m : FileMut) (file : Bits) (h : file_repr_after_mutation m = false) :
+    evalFileRepr file (applyMut m file).length = .ok (applyMut m file) := by
+  have hm : m = .none := by cases m <;> simp_all [file_repr_after_mutation]
+  subst hm
+  simp [evalFileRepr, applyMut]
+
+/-- … but `_filename` survives every mutation of a `BitArray`/`BitStream`, so after one the text names the file and
+    the current length, which is another value (or no value at all). -/
+theorem file_repr_mutated_witness :
+    (∃ m file, file_repr_after_mutation m = true ∧ ∃ v, evalFileRepr file (applyMut m file).length = .ok v ∧ v ≠ applyMut m file) ∧
+    (∃ m file, file_repr_after_mutation m = true ∧ evalFileRepr file (applyMut m file).length = .error .value) := by
+  refine ⟨⟨.invert0, [true, false, false, false, false, false, false, false], by decide, _, rfl, by decide⟩,
+    ⟨.append1, [true, false, false, false, false, false, false, false], by decide, by decide⟩⟩
 
 /-! ### non-vacuity -/
 
